@@ -17,6 +17,7 @@ import (
 	"go/printer"
 	"go/token"
 	"os"
+	"reflect"
 	"strings"
 )
 
@@ -51,6 +52,9 @@ type NewFacts struct {
 	GL     []string `json:"gl"`
 	SI     []string `json:"si"`
 	SL     []string `json:"sl"`
+	Tags   []string `json:"tags"` // `_json_T` struct: Field=tag
+	Opts   []string `json:"opts"` // -opt: option functions (functions returning shoot.Option[T, *T])
+	Defs   []string `json:"defs"` // -opt: fields assigned by SetDefault
 }
 type MapFacts struct {
 	ToCtor   []string `json:"toctor"`
@@ -132,7 +136,8 @@ func member(e ast.Expr) string {
 
 func nf(m map[string]*NewFacts, t string) *NewFacts {
 	if m[t] == nil {
-		m[t] = &NewFacts{Params: []string{}, JGet: []string{}, JSet: []string{}, JExp: []string{}, GI: []string{}, GL: []string{}, SI: []string{}, SL: []string{}}
+		m[t] = &NewFacts{Params: []string{}, JGet: []string{}, JSet: []string{}, JExp: []string{}, GI: []string{}, GL: []string{}, SI: []string{}, SL: []string{},
+			Tags: []string{}, Opts: []string{}, Defs: []string{}}
 	}
 	return m[t]
 }
@@ -270,6 +275,13 @@ func describe(path string) *File {
 		switch v := d.(type) {
 		case *ast.FuncDecl:
 			if v.Recv == nil {
+				if v.Type.Results != nil && len(v.Type.Results.List) == 1 {
+					// shoot.Option[T, *T] / Option[T, *T]
+					if il, ok := v.Type.Results.List[0].Type.(*ast.IndexListExpr); ok && baseType(il.X) == "Option" && len(il.Indices) == 2 {
+						x := nf(out.New, baseType(il.Indices[0]))
+						x.Opts = append(x.Opts, v.Name.Name)
+					}
+				}
 				if strings.HasPrefix(v.Name.Name, "New") && v.Type.Results != nil && len(v.Type.Results.List) == 1 {
 					t := baseType(v.Type.Results.List[0].Type)
 					if "New"+t == v.Name.Name {
@@ -292,6 +304,15 @@ func describe(path string) *File {
 				recv = v.Recv.List[0].Names[0].Name
 			}
 			switch {
+			case v.Name.Name == "SetDefault":
+				x := nf(out.New, t)
+				for _, st := range v.Body.List {
+					if a, ok := st.(*ast.AssignStmt); ok && len(a.Lhs) == 1 {
+						if sel, ok := a.Lhs[0].(*ast.SelectorExpr); ok {
+							x.Defs = append(x.Defs, sel.Sel.Name)
+						}
+					}
+				}
 			case v.Name.Name == "MarshalJSON":
 				// fields read through a getter (jget) / directly (jexp): keys of the `_json_T{…}` literal and the guarded
 				// `data.X = …` assignments for members promoted through an embedded pointer
@@ -378,6 +399,19 @@ func describe(path string) *File {
 			}
 			for _, sp := range v.Specs {
 				ts := sp.(*ast.TypeSpec)
+				if stt, ok := ts.Type.(*ast.StructType); ok && strings.HasPrefix(ts.Name.Name, "_json_") {
+					x := nf(out.New, strings.TrimPrefix(ts.Name.Name, "_json_"))
+					for _, fl := range stt.Fields.List {
+						tag := ""
+						if fl.Tag != nil {
+							tag = reflect.StructTag(strings.Trim(fl.Tag.Value, "`")).Get("json")
+						}
+						for _, n := range fl.Names {
+							x.Tags = append(x.Tags, n.Name+"="+tag)
+						}
+					}
+					continue
+				}
 				it, ok := ts.Type.(*ast.InterfaceType)
 				if !ok {
 					continue
